@@ -246,14 +246,20 @@ def build_group_scores(spec, L=None):
     callers = {"pos": pos, "neg": neg, "pos_groups": pg, "neg_groups": ng}
     kw = dict(score_class=spec.get("score_class", "pos"), equal_class=spec.get("equal_class", "pos"))
     if via == "from_labels":
-        labels = np.concatenate([np.ones(len(pos), dtype=int), np.zeros(len(neg), dtype=int)])
+        plab = spec.get("pos_label", 1)
+        if plab is True or plab is False:
+            labels = np.concatenate([np.full(len(pos), plab, dtype=bool), np.full(len(neg), not plab, dtype=bool)])
+        elif isinstance(plab, str):
+            labels = np.asarray([plab] * len(pos) + ["n"] * len(neg), dtype=str) if len(pos) + len(neg) else np.asarray([], dtype="<U1")
+        else:
+            labels = np.concatenate([np.full(len(pos), plab, dtype=int), np.full(len(neg), 1 - plab if plab in (0, 1) else 0, dtype=int)])
         scores = np.concatenate([pos, neg])
         groups = np.concatenate([pg, ng]) if len(pg) + len(ng) else pg
         perm = np.asarray(spec.get("perm", list(range(len(labels)))), dtype=int)
         if len(perm) == len(labels) and not is_sorted:
             labels, scores, groups = labels[perm], scores[perm], groups[perm]
         callers = _callers({"labels": labels, "scores": scores, "groups": groups})
-        o = L.GroupScores.from_labels(labels, scores, groups, is_sorted=is_sorted, **kw)
+        o = L.GroupScores.from_labels(labels, scores, groups, pos_label=plab, is_sorted=is_sorted, **kw)
     else:
         names = spec.get("group_names")
         if names is not None:
